@@ -7,50 +7,55 @@ open MJ.Fold
 theorem chk_def {n : Int} {v : V} (h : chk n = .ok v) : v ≠ .undef := by
   unfold chk at h; split at h <;> simp at h; subst h; simp
 
+/-- close a goal `v ≠ undef` from a hypothesis `h : <result> = ok v` after all matches are split -/
+macro "fin_def" h:ident : tactic => `(tactic| first
+  | exact chk_def $h
+  | (simp [bad] at $h:ident; done)
+  | (simp [bad] at $h:ident; subst $h; simp; done)
+  | (simp [bad] at $h:ident; rw [← $h:ident]; simp; done))
+
+theorem repeatSeq_def {mk : List V → V} (hmk : ∀ l, mk l ≠ .undef) {xs : List V} {n : V} {t : Bool} {v : V}
+    (h : repeatSeq mk xs n t = .ok v) : v ≠ .undef := by
+  unfold repeatSeq at h
+  repeat' (split at h)
+  all_goals first | (simp [bad] at h; done) | (simp at h; subst h; exact hmk _)
+
 /-- the concrete value operations used by the driver satisfy the laws the C04 theorems assume -/
 theorem prims_lawful : prims.Lawful where
   add := by
     intro a b v h; simp only [prims, add] at h
-    split at h <;> (try (simp [bad] at h; done)) <;> (try (simp at h; subst h; simp; done))
-    split at h <;> first | exact chk_def h | (simp [bad, ofF] at h; try subst h; simp)
+    repeat' (split at h)
+    all_goals fin_def h
   sub := by
     intro a b v h; simp only [prims, sub] at h
-    split at h <;> first | exact chk_def h | (simp [bad, ofF] at h; try subst h; simp)
+    repeat' (split at h)
+    all_goals fin_def h
   mul := by
     intro a b v h; simp only [prims, mul] at h
     repeat' (split at h)
-    all_goals first | exact chk_def h | (simp [bad, ofF] at h; try subst h; simp)
+    all_goals first
+      | exact repeatSeq_def (by intro l; simp) h
+      | fin_def h
   div := by
     intro a b v h; simp only [prims, div] at h
-    split at h <;> (simp [bad, ofF] at h; try subst h; simp)
+    repeat' (split at h)
+    all_goals fin_def h
   fdiv := by
     intro a b v h; simp only [prims, fdiv] at h
-    split at h
-    · split at h
-      · simp [bad] at h
-      · exact chk_def h
-    all_goals simp [bad] at h
+    repeat' (split at h)
+    all_goals fin_def h
   rem := by
     intro a b v h; simp only [prims, rem] at h
-    split at h
-    · split at h
-      · simp [bad] at h
-      · exact chk_def h
-    all_goals simp [bad] at h
+    repeat' (split at h)
+    all_goals fin_def h
   pow := by
     intro a b v h; simp only [prims, pow] at h
-    split at h
-    · repeat' (split at h)
-      all_goals first | exact chk_def h | (simp [bad] at h; try subst h; simp)
-    all_goals simp [bad] at h
+    repeat' (split at h)
+    all_goals fin_def h
   neg := by
     intro a v h; simp only [prims, neg] at h
-    split at h
-    · simp at h; subst h; simp
-    · split at h
-      · exact chk_def h
-      · simp [bad] at h
-    · simp [bad] at h
+    repeat' (split at h)
+    all_goals fin_def h
   concat := by intro a b; simp [prims, concat]
   contains := by
     intro a b v h; simp only [prims, contains] at h
